@@ -15,7 +15,10 @@ ATOMS = ["None", "True", "False", "Ellipsis", "StopIteration", "0", "1", "-1", "
          "-2**31", "-2**31-1", "2**32-1", "2**32", "2**63-1", "2**63", "-2**63", "-2**63-1", "2**64-1", "2**64", "10**30", "-10**40",
          "0xDEADBEEF", "1.5", "-0.0", "0.0", "1e308", "5e-324", "float('inf')", "float('-inf')", "3.141592653589793", "1e-5", "1+2j",
          "complex(-0.0, 1e100)", "b''", "b'abc'", "b'\\x00\\xff\\x80'", "bytes(range(256))", "''", "'abc'", "'\\xe9'", "'\\u20ac'",
-         "'\\U0001f600'", "'\\udc80'", "'a\\x00b'", "'x'*300", "'\\xff'*5"]
+         "'\\U0001f600'", "'\\udc80'", "'a\\x00b'", "'x'*300", "'\\xff'*5",
+         # floats that need all 17 significant digits to round-trip, the largest double, complex special values
+         "0.1+0.2", "1.0/3", "2**0.5", "1.1*1.1", "1.7976931348623157e308", "2.2250738585072014e-308", "4.35e-323", "123456789.12345679",
+         "complex(1.0/3, 0.1+0.2)", "complex(1, float('inf'))", "complex(float('-inf'), -0.0)", "complex(-0.0, -0.0)", "complex(0.0, -0.0)"]
 HASHABLE = [a for a in ATOMS if "float" not in a and "." not in a and "j" not in a and "e" not in a.lower().replace("ellipsis", "").replace("true", "").replace("false", "").replace("none", "").replace("stopiteration", "").replace("bytes", "").replace("range", "").replace("deadbeef", "") or a in ("None", "True", "Ellipsis", "b'abc'", "'abc'", "0xDEADBEEF")]
 
 
@@ -44,6 +47,12 @@ def run(ctx):
     hosts = dict(core.HOSTS) if ctx.thorough else {k: v for k, v in core.HOSTS.items() if k in ((3, 8), (3, 12), (3, 13))}
     exprs = list(ATOMS) + ["(lambda t: (t, t))(tuple(range(300)))", "[[], (), {}, set(), frozenset()]", "{None: 1, 2: None}"]
     exprs += [gen(rng) for _ in range(60 if not ctx.thorough else 2500)]
+    # doubles drawn from random 64-bit patterns (every exponent range, full mantissas), written exactly in hex notation
+    import struct
+    for _ in range(60 if not ctx.thorough else 3000):
+        x = struct.unpack("<d", struct.pack("<Q", rng.getrandbits(64)))[0]
+        if x == x:
+            exprs.append("float.fromhex(%r)" % x.hex())
     for hv, path in sorted(hosts.items()):
         w = Worker(path)
         try:
